@@ -28,6 +28,7 @@ def run(ctx):
     r43_45(ctx, api)
     r44(ctx, wr)
     r46(ctx, api)
+    r48(ctx, api)
     from . import c02, c05, c20
     c02.r27(ctx, 'R4.7')
     c05.r55(ctx, api)        # sorted_partitioned_columns(filters=...) goes through filter_row_groups(as_idx=True)
@@ -242,3 +243,27 @@ def r46(ctx, api):
     ctx.ob('R4.6', 'api.sorted_partitioned_columns:strictly-increasing-test',
            'sorted(min) == min' in s and 'sorted(max) == max' in s and 'mx < mn' in s and 'zip(max[:-1], min[1:])' in s,
            'row group k+1 starts strictly above the end of row group k', api.loc(f))
+
+
+def r48(ctx, api, rule='R4.8'):
+    """api.statistics returns one entry per row group for every column: the conversion of logical-type columns works
+    on the whole list or replaces it by the [None] placeholder - it never filters entries out (positions would shift);
+    sorted_partitioned_columns selects the statistics of the chosen row groups by their indices"""
+    f = api.func('statistics')
+    bad = []
+    for x in walk_no_nested(f):
+        if isinstance(x, ast.comprehension) and x.ifs and 'd[name][column]' in norm(x.iter):
+            bad.append(norm(x.iter) + ' if ' + ' and '.join(norm(i) for i in x.ifs))
+    ctx.ob(rule, 'api.statistics:per-row-group-lists-are-never-filtered', not bad,
+           'filtering %s drops the entries of row groups without a value: the remaining values are attributed to the wrong row groups' % bad, api.loc(f))
+    s = src(f)
+    ctx.ob(rule, 'api.statistics:a-missing-entry-collapses-the-column-to-the-placeholder',
+           'None in d[name][column]' in norm(ast.parse(s)) if False else 'None in d[name][column]' in ' '.join(norm(x) for x in walk_no_nested(f) if isinstance(x, ast.Compare)),
+           'the [None] placeholder is chosen when any row group lacks the value', api.loc(f))
+    g = api.func('sorted_partitioned_columns')
+    sel = [st for st in iter_child_stmts(g.body) if isinstance(st, ast.Assign) and norm(st.targets[0]) == 's[stat][col]']
+    ok = len(sel) == 1 and isinstance(sel[0].value, ast.ListComp) and len(sel[0].value.generators) == 1 \
+        and norm(sel[0].value.generators[0].iter) == 'rg_idx_list' and not sel[0].value.generators[0].ifs \
+        and isinstance(sel[0].value.elt, ast.Subscript) and norm(sel[0].value.elt.slice) == norm(sel[0].value.generators[0].target)
+    ctx.ob(rule, 'api.sorted_partitioned_columns:statistics-selected-by-row-group-index', ok,
+           '`%s`' % (norm(sel[0])[:120] if sel else 'selection not found'), api.loc(g))
